@@ -50,6 +50,7 @@ type Case struct {
 	Env     gen.Env     // Kind "hs": environment of the 50-tick comparison
 	HDL     bool        // regenerate the Verilog of both sides and compare
 	Fresh   bool        // load in a "fresh process": the opcode registry is reset to the static set between save and load
+	NoLQ    bool        // the loading process was started without -linear-data-range (implies Fresh)
 	Perturb int         // selects the field whose perturbation must survive the round trip
 }
 
@@ -60,7 +61,25 @@ var (
 	staticOps   []procbuilder.Opcode // the statically registered opcodes, captured before any dynamic name is created
 	staticNames []string
 	setupOnce   sync.Once
+	lqRanges    *map[int]bmnumbers.LinearDataRange
 )
+
+// configureLQ(false) puts the dynamic-instruction registry in the state of a process that was started
+// without -linear-data-range (DynLinearQuantizer{Ranges: nil}, machine.go:143); configureLQ(true) in
+// the state the CLIs reach with the option.
+func configureLQ(on bool) {
+	setup()
+	for i, t := range procbuilder.AllDynamicalInstructions {
+		if t.GetName() == "dyn_linear_quantizer" {
+			d := t.(procbuilder.DynLinearQuantizer)
+			d.Ranges = nil
+			if on {
+				d.Ranges = lqRanges
+			}
+			procbuilder.AllDynamicalInstructions[i] = d
+		}
+	}
+}
 
 // LQRanges are the linear-quantizer ranges this process is configured with. A CLI gets
 // them from -linear-data-range (cmd/bondmachine/bondmachine.go:225-243, cmd/basm/main.go:65-83):
@@ -80,6 +99,7 @@ func setup() {
 				lq = t.(bmnumbers.DynLinearQuantizer).Ranges
 			}
 		}
+		lqRanges = lq
 		if lq != nil {
 			if *lq == nil {
 				*lq = map[int]bmnumbers.LinearDataRange{}
